@@ -1,8 +1,10 @@
 """C12 — boolean connectives group as written: parentheses, precedence, case, spacing.
 
 The model follows the code after fix c2dd0be (listener re-association); the obligations
-`parser_numbers_match_grammar`, `parser_is_greedy`, `listener_is_repaired`, `keywords_are_expected` pin what
-/verif/extract regenerates from zitiql_parser.go, ZitiQl.g4 and ast/bolt_listener.go.
+`parser_numbers_match_grammar`, `parser_is_greedy`, `listener_is_repaired`, `transform_is_plain`,
+`keywords_are_expected` pin what /verif/extract regenerates from zitiql_parser.go, ZitiQl.g4,
+ast/bolt_listener.go and the typing / evaluation functions of package ast (node_convert.go, node_expr.go,
+helper.go, node_query.go).
 
 Own flow (composed from the pieces of common.py): the implementation line `ok <typed tree> <truth
 values>` is compared *whole* with the model of the generated parser + listener (correspondence: the
@@ -16,9 +18,12 @@ from . import common
 MODULE = "StorageModel.Properties.C12"
 THEOREMS = [
     # regenerated-data obligations
-    "parser_numbers_match_grammar", "parser_is_greedy", "listener_is_repaired", "keywords_are_expected",
+    "parser_numbers_match_grammar", "parser_is_greedy", "listener_is_repaired", "transform_is_plain",
+    "keywords_are_expected",
     # the model on every token list
-    "parse_render", "parse_sound", "stack_discipline", "pipeline_reads",
+    "parse_render", "parse_sound", "stack_discipline", "pipeline_reads", "typed_pipeline_reads",
+    # the typed tree (after TypeTransformBool): a bracketing of the written text, both operands kept
+    "typed_tree_is_a_bracketing", "regrouped_operands_both_kept", "typed_not_negates",
     # the property, clause by clause
     "and_over_or", "and_over_or_both_orders", "paren_groups", "paren_content_only_by_value", "chain_assoc",
     "not_paren_negates", "redundant_parens", "redundant_parens_same_tree", "respell_invariant",
@@ -34,6 +39,10 @@ TABLE_OBLIGATIONS = [
     "parser_is_greedy (every level at which boolExpr is entered is <= both operator precedences)",
     "listener_is_repaired (Generated/Grammar.lean: bodies of ToBoltListener.ExitAndExpr / ExitOrExpr / ExitNotExpr / "
     "ExitGroup in ast/bolt_listener.go are the forms the model interprets; `.grouped` is mentioned exactly twice)",
+    "transform_is_plain (Generated/Grammar.lean: signature + body of BooleanLogicExprNode.TypeTransformBool, "
+    "UntypedNotExprNode.TypeTransformBool, AndExprNode / OrExprNode / NotExprNode.EvalBool, transformTypes, "
+    "transformBools, PostProcess, untypedQueryNode.TypeTransformBool in package ast are the forms `transform` / "
+    "`T.eval` follow: one typed node per untyped node, no rewrite of the tree)",
     "keywords_are_expected (AND OR NOT TRUE FALSE are the case-insensitive letter fragments)",
 ]
 
@@ -171,7 +180,13 @@ def describe(case, impl, model, spec):
 RULE = ("k: every token sequence over {atom ( ) and or not} up to length 5 (quick) / 7 (thorough); every "
         "well-formed skeleton with (atoms, <=parens, <=nots) in {(1,2,2),(2,2,2),(3,2,2),(4,2,1)} (quick) / "
         "{(1,3,3),(2,3,3),(3,3,3),(4,2,2),(5,2,1)} (thorough), atoms distinct, all 2^n assignments; constants, a "
-        "string-typed symbol, repeated atoms; 300 / 5000 random skeletons with 5-8 atoms.  r: 2500 / 50000 random "
+        "string-typed symbol, repeated atoms; 300 / 5000 random skeletons with 5-8 atoms; related operands: every "
+        "ordered pair of bracketings of one sequence of 3..4 (quick) / 3..5 (thorough) atoms x every connective "
+        "sequence x {and, or} (3 atoms: also negated / with parentheses left out), constants next to a string-typed "
+        "symbol, 1200 / 8000 random members with 3-8 atoms per operand (the same sequence grouped in two ways, "
+        "identical, mirrored, distant, part-whole, one atom or connective different, under not, nested, constants / "
+        "string-typed symbol inside, some parentheses left out), all 2^n assignments of the distinct atoms; 200 / "
+        "1500 of that family over operation atoms as r-cases.  r: 2500 / 50000 random "
         "re-spellings (keyword case, blanks/tabs/CR/LF, 0-3 redundant pairs of parentheses, operator-case and "
         "spacing variants inside the atoms) of random mixed queries with 1-5 operation atoms over an 8-row table.  "
         "x: 2500 / 40000 damaged spellings (required blank removed, word split/glued, parenthesis dropped/doubled, "
@@ -183,7 +198,8 @@ TRUSTED = common.BASE_TRUST + [
     "the ANTLR runtime and the generated lexer/parser are represented by the precedence-climbing model "
     "(StorageModel/C12/Skel.lean) and the lexer fragment (StorageModel/C12/Lex.lean): agreement is checked on "
     "every run (typed tree + truth table), not proved",
-    "extract/grammar.go's reading of ZitiQl.g4 and of boolExpr(_p int) in zitiql_parser.go",
+    "extract/grammar.go's reading of ZitiQl.g4, of boolExpr(_p int) in zitiql_parser.go, of the listener methods and "
+    "of the typing / evaluation functions of package ast (text comparison with the forms the model interprets)",
 ]
 
 
@@ -193,6 +209,8 @@ def run(ctx, replay_cases=None):
         "the surrounding connectives (both are primary alternatives of boolExpr); exercised by the r-cases",
         "the generated parser hands every operator the rest of its level as right operand; the grouping is restored "
         "by the listener (ExitGroup marks parenthesised nodes, ExitAndExpr re-associates) - both parts are modelled",
+        "after the listener the tree is only typed node by node (BooleanLogicExprNode / UntypedNotExprNode "
+        "TypeTransformBool: one And/Or/Not node per untyped node); the bodies are pinned by the extractor",
         "the prefix `not` is the loosest operator (last alternative of boolExpr: its operand is the rest of its "
         "level); the property text only fixes `not (P)` on its own",
         "input is within the lexical fragment of Lex.lean (letters, underscore, blanks, tab, CR, LF, parentheses) "
